@@ -15,8 +15,8 @@ Known defects of the pinned tree (generator avoids their triggers; witnesses in 
   comp_var         the variable of a list comprehension is also read as a global in the formula (py>=3.12)
   ifexp_order      `a if c else b` with function scopes in both a and c (libcst vs symtable order)
   builtin_child    a child space / ItemSpace parameter named like a built-in is not prefixed
-  default_global   a global name in a default value of a cells parameter becomes `self.<n>` in the signature
-  (never generated at all: the local name `self`)
+  self_local       a local variable / parameter named `self`
+  (modelx itself rejects global names in default values of cells parameters: never generated)
 """
 import os, json, glob, builtins, hashlib
 import fw
@@ -44,7 +44,7 @@ def repro_script(case, qi=None):
         if sp["bases"]:
             kw += ", bases=[%s]" % ", ".join("S[%d]" % b for b in sp["bases"])
         if sp.get("params") is not None:
-            ps = ", ".join(p if d is None else "%s=%d" % (p, d) for p, d in sp["params"])
+            ps = ", ".join(p if d is None else "%s=%s" % (p, d) for p, d in sp["params"])
             kw += ", formula=%r" % ("lambda %s: None" % ps)
         L.append("S.append(%s.new_space(%r%s))" % (par, sp["name"], kw))
     for i, sp in enumerate(case["spaces"]):
@@ -277,7 +277,9 @@ def run(tier, seed, rng):
     # ---- witnesses of the recorded defects ----
     for d, c, r in zip(finds, wit, wres):
         fails, st = p_oracle(c, r)
-        failing = bool(fails) or fails is None
+        if fails is None:
+            raise fw.Broken("witness %s cannot be built: %s" % (d["_file"], r.get("build_err")))
+        failing = bool(fails)
         text = d["finding"]["text"]
         fw.witness_result(out, PROP, d["finding"]["key"], failing, text,
                           {"case": d["_file"], "model": c, "script": repro_script(c)})
